@@ -31,27 +31,60 @@ def all_locs(bs):
     return out
 
 
-def program_text(name, stmts, decls, extra, vals):
+SHIFT = 3      # actual arguments of assumed-shape dummies are declared with other bounds (same extents)
+
+
+def program_text(name, stmts, decls, extra, vals, forms=None, args=False):
+    """module with the routine (new symbols `extra` are locals) + a driver that owns the actual data, calls the
+    routine and prints every original variable.  With args=False the routine body is inlined in the program."""
+    forms = forms or {}
     ty = {v: t for v, t, _ in decls}
-    lines = ["program %s" % name, "  implicit none"]
+    all_decls = list(decls) + [(v, new_type(v), []) for v in extra]
+    body = ext.Printer(all_decls).ps(stmts)
+    lines = []
+    if args:
+        lines += ["module kern_%s" % name, "  implicit none", "contains",
+                  "  subroutine sub(%s)" % ", ".join(v for v, _, _ in decls)]
+        for v, t, bs in decls:
+            lines.append("  " + ext.decl_line(v, t, bs, forms.get(v), True))
+        for v in extra:
+            lines.append("    %s :: %s" % (new_type(v), v))
+        lines += ["  " + l for l in body]
+        lines += ["  end subroutine sub", "end module kern_%s" % name]
+    lines += ["program %s" % name]
+    if args:
+        lines.append("  use kern_%s, only: sub" % name)
+    lines.append("  implicit none")
+    shift = {}
+    allocs = []
     for v, t, bs in decls:
-        lines.append("  %s%s :: %s" % (t, ", dimension(%s)" % ", ".join("%d:%d" % b for b in bs) if bs else "", v))
-    for v in extra:
-        lines.append("  %s :: %s" % (new_type(v), v))
-    if "vq__" not in ty:
-        lines.append("  integer :: vq1__, vq2__, vq3__")
+        kind = forms.get(v, ("explicit",))[0] if (bs and args) else "explicit"
+        shift[v] = SHIFT if kind == "assumed" else 0
+        if kind == "alloc":
+            lines.append("  %s, allocatable, dimension(%s) :: %s" % (t, ", ".join(":" for _ in bs), v))
+            allocs.append("  allocate(%s(%s))" % (v, ", ".join("%d:%d" % b for b in bs)))
+        else:
+            lines.append("  %s%s :: %s" % (t, ", dimension(%s)" % ", ".join(
+                "%d:%d" % (lb + shift[v], ub + shift[v]) for lb, ub in bs) if bs else "", v))
+    if not args:
+        for v in extra:
+            lines.append("  %s :: %s" % (new_type(v), v))
+    lines.append("  integer :: vq1__, vq2__, vq3__")
+    lines += allocs
     for v, t, bs in decls:
         for loc in (all_locs(bs) if bs else [()]):
             z = vals.get((v, loc), 0)
-            tgt = v if not loc else "%s(%s)" % (v, ", ".join(str(i) for i in loc))
+            tgt = v if not loc else "%s(%s)" % (v, ", ".join(str(i + shift[v]) for i in loc))
             if t == "real":
                 lines.append("  %s = %d.0" % (tgt, z))
             elif t == "integer":
                 lines.append("  %s = %d" % (tgt, z))
             else:
                 lines.append("  %s = %s" % (tgt, ".true." if z else ".false."))
-    all_decls = list(decls) + [(v, new_type(v), []) for v in extra]
-    lines += ext.Printer(all_decls).ps(stmts)
+    if args:
+        lines.append("  call sub(%s)" % ", ".join(v for v, _, _ in decls))
+    else:
+        lines += body
     for v, t, bs in decls:
         ref = v
         ind = "  "
@@ -61,7 +94,7 @@ def program_text(name, stmts, decls, extra, vals):
             ref = "%s(%s)" % (v, ", ".join(vars_))
             # first dimension innermost (column-major order)
             for q, (lb, ub) in reversed(list(zip(vars_, bs))):
-                loops.append("%sdo %s = %d, %d" % (ind, q, lb, ub))
+                loops.append("%sdo %s = %d, %d" % (ind, q, lb + shift[v], ub + shift[v]))
                 ind += "  "
         lines += loops
         if t == "real":
@@ -91,9 +124,10 @@ def crosscheck(ctx, items):
     d = ctx.scratch / "gf"
     d.mkdir(exist_ok=True)
     for i, (case, res, vals, _) in enumerate(items):
-        (d / ("o%d.f90" % i)).write_text(program_text("o%d" % i, res["orig"], case["decls"], [], vals))
-        (d / ("t%d.f90" % i)).write_text(program_text("t%d" % i, res["out"], case["decls"], res["new_names"], vals))
-    core.sh("ls *.f90 | xargs -P 8 -I{} sh -c 'gfortran -fcheck=all -ffree-line-length-none -O0 -w -o {}.x {} 2>{}.err'", cwd=d, timeout=1500)
+        fa = (case.get("forms"), case.get("args", False))
+        (d / ("o%d.f90" % i)).write_text(program_text("o%d" % i, res["orig"], case["decls"], [], vals, *fa))
+        (d / ("t%d.f90" % i)).write_text(program_text("t%d" % i, res["out"], case["decls"], res["new_names"], vals, *fa))
+    core.sh("ls *.f90 | xargs -P 8 -I{} sh -c 'mkdir -p m_{} && gfortran -fcheck=all -ffree-line-length-none -O0 -w -J m_{} -o {}.x {} 2>{}.err'", cwd=d, timeout=1500)
     problems, n_ok, n_diff = [], 0, 0
 
     def run(tag, i):
